@@ -103,8 +103,23 @@ class Builder(object):
             return (cv[2], 'high', cv[1])
         return None
 
+    def expand_dist(self, e):
+        """e with the locals that name a distance to a face (`d_low = xi - xmin`, flow-sensitive: the name stands for what it was last assigned) written out"""
+        dist = getattr(self, 'dist', {})
+        if not dist or not any(isinstance(x, ast.Name) and x.id in dist for x in ast.walk(e)):
+            return e
+        import copy as _copy
+
+        class R(ast.NodeTransformer):
+            def visit_Name(self_, n):
+                if isinstance(n.ctx, ast.Load) and n.id in dist:
+                    return _copy.deepcopy(dist[n.id])
+                return n
+        return R().visit(_copy.deepcopy(e))
+
     def mirror_translate(self, e):
         """(axis, side, owner) for -2*(c - amin) / 2*(amax - c)"""
+        e = self.expand_dist(e)
         neg = False
         if isinstance(e, ast.BinOp) and isinstance(e.op, ast.Mult):
             k, inner = e.left, e.right
@@ -141,7 +156,7 @@ class Builder(object):
             self.walk(s.body, guards)
             return
         if isinstance(s, ast.If):
-            side = self.side_test(s.test)
+            side = self.side_test(self.expand_dist(s.test))
             self.walk(s.body, guards + [(s, side)])
             if s.orelse:
                 self.walk(s.orelse, guards)
@@ -187,6 +202,15 @@ class Builder(object):
                     e['target'] = tgt.id
                     break
             return
+        if isinstance(tgt, ast.Name) and isinstance(val, ast.BinOp) and isinstance(val.op, ast.Sub) and all(isinstance(o, (ast.Name, ast.Attribute)) for o in (val.left, val.right)):
+            # a local naming a distance to a face: remembered as the expression it stands for (and forgotten as anything else)
+            if not hasattr(self, 'dist'):
+                self.dist = {}
+            self.dist[tgt.id] = self.expand_dist(val)
+            self.env.pop(tgt.id, None)
+            return
+        if isinstance(tgt, ast.Name) and hasattr(self, 'dist'):
+            self.dist.pop(tgt.id, None)
         if isinstance(tgt, ast.Name):
             if isinstance(val, ast.Attribute) and val.attr == 'length':
                 c = self.coord_of(val.value)
@@ -455,15 +479,6 @@ def rule_order(chk, cls, base):
     for a, b in pairs:
         chk.decide(g.dominates(ids[a], ids[b]), 'update-order', '%s<%s' % (a, b), node=g.nodes[ids[b]].ast, file=NB,
                    func='CPUDomainManager.update', detail_bad='%s is not always preceded by %s' % (b, a), detail_ok='dominated')
-    # guards
-    def guard(n):
-        i = M.enclosing(g.nodes[ids[n]].ast, (ast.If,))
-        return compact(i.test) if i is not None else None
-    chk.decide(guard('_create_ghosts_periodic') == 'self.is_periodic' and guard('_box_wrap_periodic') == 'self.is_periodic',
-               'update-order', 'periodic-guard', node=fn, file=NB, func='CPUDomainManager.update',
-               detail_bad='periodic steps are not under `if self.is_periodic`', detail_ok='ok')
-    chk.decide(guard('_create_ghosts_mirror') == 'self.is_mirror', 'update-order', 'mirror-guard', node=fn, file=NB,
-               func='CPUDomainManager.update', detail_bad='mirror step is not under `if self.is_mirror`', detail_ok='ok')
     # ghosts are managed exactly when the domain is periodic or mirrored and this is not a parallel run (there the parallel manager creates them): per path through update()
     from verif_static import paths as PT
     bad_g = None
@@ -494,11 +509,21 @@ def rule_order(chk, cls, base):
                 models.append(env_)
         for env_ in models:
             should = (env_[ATOMS[0]] or env_[ATOMS[1]]) and not env_[ATOMS[2]]
+            if should and works:
+                # each kind of image is made exactly when the domain has that kind of boundary - both kinds on a domain that is periodic along one axis and mirrored along another
+                for what_, flag_ in (('self._box_wrap_periodic', ATOMS[0]), ('self._create_ghosts_periodic', ATOMS[0]), ('self._create_ghosts_mirror', ATOMS[1])):
+                    if (what_ in cl) != env_[flag_]:
+                        bad_k = globals().setdefault('_C07_KIND', [])
+                        bad_k.append('%s %s called with is_periodic=%s, is_mirror=%s' % (what_[5:], 'is' if what_ in cl else 'is not', env_[ATOMS[0]], env_[ATOMS[1]]))
             if should != works:
                 bad_g = bad_g or ('ghosts %s handled with is_periodic=%s, is_mirror=%s, in_parallel=%s' % ('are' if works else 'are not', env_[ATOMS[0]], env_[ATOMS[1]], env_[ATOMS[2]]))
         if models:
             seen_on = seen_on or works
             seen_off = seen_off or not works
+    bad_k = globals().pop('_C07_KIND', [])
+    chk.decide(not bad_k, 'update-order', 'each-kind-of-image-exactly-when-its-flag-is-set', node=fn, file=NB, func='CPUDomainManager.update',
+               detail_bad='%s: on a domain that is periodic along one axis and mirrored along another both creators must run (periodic first), on a purely periodic / mirrored one only '
+                          'its own' % '; '.join(sorted(set(bad_k))[:2]), detail_ok='wrap + periodic images iff is_periodic, mirror images iff is_mirror, for all four flag combinations')
     chk.decide(bad_g is None and seen_on and seen_off, 'update-order', 'outer-guard', node=fn,
                file=NB, func='CPUDomainManager.update',
                detail_bad='ghost handling must run exactly when (is_periodic or is_mirror) and not in_parallel: %s' % bad_g, detail_ok='(is_periodic or is_mirror) and not in_parallel')
@@ -584,6 +609,30 @@ def rule_indices_current(chk, cls):
                                   'indices point at other particles, so some images are missing and others are made of the wrong particle' % (lst, recv, recv, sorted(set(bad))),
                        detail_ok='nothing changes `%s` between the loop that fills `%s` and this extraction' % (recv, lst))
     chk.floor('extractions through an index list', n, 12)
+    # the per-particle offsets are applied to an extracted copy *by position*; extract_particles aligns the copy it returns (real particles first), so the copy is in the order
+    # of the index list only if the array extracted from is itself aligned - every append to an array that is later extracted from by index list leaves it aligned
+    for fname in ('_create_ghosts_periodic', '_create_ghosts_mirror'):
+        fn = M.find_func(cls, fname)
+        recvs = set(c.func.value.id for c in M.calls(fn) if isinstance(c.func, ast.Attribute) and c.func.attr == 'extract_particles' and isinstance(c.func.value, ast.Name))
+        unaligned = []
+        for c in M.calls(fn):
+            if isinstance(c.func, ast.Attribute) and c.func.attr in ('append_parray', 'extract_particles') and isinstance(c.func.value, ast.Name) and c.func.value.id in recvs:
+                kw = dict((k.arg, k.value) for k in c.keywords)
+                al = kw.get('align', c.args[1] if c.func.attr == 'append_parray' and len(c.args) > 1 else None)
+                if c.func.attr == 'append_parray' and al is not None and isinstance(al, ast.Constant) and al.value is False:
+                    # only when an extraction from the same array can still follow (before the name is bound to another array)
+                    g_ = C.build_cfg(fn)
+                    mnode = next((nd.id for nd in g_.nodes if nd.ast is not None and isinstance(nd.ast, (ast.Expr, ast.Assign)) and any(c is x for x in ast.walk(nd.ast))), None)
+                    rb = [nd.id for nd in g_.nodes if nd.ast is not None and isinstance(nd.ast, ast.Assign) and any(isinstance(t_, ast.Name) and t_.id == c.func.value.id for t_ in nd.ast.targets)]
+                    exts = [nd.id for nd in g_.nodes if nd.ast is not None and isinstance(nd.ast, (ast.Expr, ast.Assign)) and
+                            any(isinstance(x, ast.Call) and isinstance(x.func, ast.Attribute) and x.func.attr == 'extract_particles' and isinstance(x.func.value, ast.Name) and
+                                x.func.value.id == c.func.value.id for x in ast.walk(nd.ast))]
+                    if mnode is not None and any(e_ in g_.reachable(mnode, avoid=set(rb)) and e_ != mnode for e_ in exts):
+                        unaligned.append('%s at line %d' % (U(c)[:50], c.lineno))
+        chk.decide(not unaligned, 'indices-current-when-used', '%s:arrays-extracted-from-stay-aligned' % fname, node=fn, file=NB, func=fname,
+                   detail_bad='%s: the array is later extracted from by an index list whose offsets are applied to the copy by position, but extract_particles returns an *aligned* copy '
+                              '(real particles first): with ghost-tagged images in front of real-tagged ones in the unaligned array the offsets land on other images' % '; '.join(unaligned[:2]),
+                   detail_ok='every append aligns')
 
 
 def rule_wrap(chk, cls):
